@@ -16,6 +16,8 @@ func Pinv(i int) Path { return PProp{Pred: i, Inverse: true} }
 
 func walkPaths(f Formula, visit func(Path)) {
 	switch x := f.(type) {
+	case Rego:
+		visit(P(1)) // the embedded snippets of the families mention p0 and p1
 	case Atom:
 		visit(x.Path)
 		if x.Other != nil {
@@ -456,4 +458,20 @@ func FamilyLevels() []Program {
 // MessagePool: values a placeholder may have to show.
 func MessagePool() []ast.Value {
 	return []ast.Value{str("it's 5% \"x\""), num(42), ast.Boolean(true), ast.Number("1.5")}
+}
+
+// FamilyVariableIndex: the nested-in-nested constraint whose outer quantified variable is the
+// k-th variable of its validation (k-1 always-true nested constraints come first), so that every
+// name the variable generator hands out is exercised as an enclosing scope of generated code.
+func FamilyVariableIndex(ks []int) []Program {
+	var out []Program
+	for _, k := range ks {
+		var fs []Formula
+		for d := 1; d < k; d++ {
+			fs = append(fs, Nested{P(d + 1), And{[]Formula{Atom{Path: P(0), Kind: "minCount", N: 0}}}})
+		}
+		fs = append(fs, Nested{P(0), And{[]Formula{Nested{P(1), And{[]Formula{mc(0)}}}}}})
+		out = append(out, one("v", And{fs}))
+	}
+	return out
 }
